@@ -606,7 +606,9 @@ func (k *Key) UnmarshalCBOR(data []byte) error {
 	if err != nil {
 		return fmt.Errorf("key_ops: %w", err)
 	}
-	if len(key_ops) > 0 {
+	if key_ops != nil {
+		// an empty key_ops array is kept as an empty, non-nil slice: it permits
+		// no operation, unlike an absent key_ops (nil), which permits all.
 		k.Ops = make([]KeyOp, len(key_ops))
 		for i, op := range key_ops {
 			switch op := op.(type) {
